@@ -16,7 +16,9 @@ EXTENDS Collection
 CONSTANTS
     Leaf,       \* selections applied by commands (subset of SUBSET Row)
     Mode,       \* edit modes
-    MaxUndo     \* bound of the undo history (glue.core.command.MAX_UNDO)
+    MaxUndo,    \* bound of the undo history (glue.core.command.MAX_UNDO)
+    CmdKinds,   \* command classes used (subset of {"AddData", "RemoveData", "ApplySubsetState", "ApplyROI"})
+    Setup       \* TRUE: direct set-up actions and session choices are explored too
 
 VARIABLES
     edit,       \* sequence of group ids: the edit-subset choice
@@ -127,11 +129,12 @@ SetupNewGroup(sel) ==
     /\ act' = B("SetupNewGroup", Cmd("-", "-", sel, "-"), <<>>)
     /\ UNCHANGED <<edit, mode, done, undone>>
 
-Commands ==
+AllCommands ==
     {Cmd("AddData", d, {}, "none") : d \in Data} \cup
     {Cmd("RemoveData", d, {}, "none") : d \in Data} \cup
     {Cmd("ApplySubsetState", "-", l, ov) : l \in Leaf, ov \in Mode \cup {"none"}} \cup
     {Cmd("ApplyROI", "-", l, "none") : l \in Leaf}
+Commands == {c \in AllCommands : c.k \in CmdKinds}
 
 SInit ==
     /\ CInit
@@ -145,10 +148,10 @@ SNext ==
     \/ \E c \in Commands : Do(c)
     \/ Undo
     \/ Redo
-    \/ \E m \in Mode : SetMode(m)
-    \/ \E e \in EditChoices : SetEdit(e)
-    \/ \E d \in Data : SetupAppend(d)
-    \/ \E sel \in Leaf : SetupNewGroup(sel)
+    \/ Setup /\ \E m \in Mode : SetMode(m)
+    \/ Setup /\ \E e \in EditChoices : SetEdit(e)
+    \/ Setup /\ \E d \in Data : SetupAppend(d)
+    \/ Setup /\ \E sel \in Leaf : SetupNewGroup(sel)
 
 SSpec == SInit /\ [][SNext]_allvars
 
